@@ -23,6 +23,10 @@ fn run_line(line: &str, st: &mut exec::State, mem: bool) -> Value {
     let mut v: Value = serde_json::from_str(line).expect("input line is not JSON");
     let op = v.get("op").and_then(|x| x.as_str()).expect("line without op").to_string();
     let a = v.get("a").cloned().unwrap_or(Value::Null);
+    if v.get("g").is_some() {
+        // a group mark opens a new client session: no zone yet (UTC), an empty search buffer
+        *st = exec::State::new();
+    }
     mem::clear_last();
     let r = exec::exec(&op, &a, st);
     let peak = mem::last();
